@@ -16,6 +16,10 @@ PFX_NOTE = ("Trusted: Lean kernel; the hand-written model of plugins/prefix/plug
             "histories (through the wire, so that length-0 and length>128 hints arrive as the library delivers them); the clock is a parameter; bitset and DHCPv6 codec not verified.")
 
 META = {
+    "C18": dict(
+        text="Lean theorem: for every parsed document, interface list and stdlib answer, the loader model returns exactly what an independently written specification demands (plugin lists, [address][%zone][:port] with defaults — incl. a general proof that splitting at the last '%' equals the spec's split —, multicast expansion, every listed error case). Partial: YAML/viper/cast text layer is third-party; generated and mutated documents are loaded by the real config.Load under recover and compared.",
+        design_ref="DESIGN.md §4 C18", technique="Lean 4 theorem (loader model = independent specification, all inputs) + conformance of the model against config.Load on generated and mutated YAML",
+        note="Partial: the theorem starts from the parsed tree (what viper/cast deliver); the text layer is exercised, not modelled."),
     "C01": dict(
         text="Lean theorems: every place where the code can panic is an explicit outcome of the model and is proved unreachable for every history (allocator BUG branches, toIP, the nil control message within the configuration space); dispatch ends in drop or exactly one send; the chain runs at most len(chain) handlers; all model functions are total. Partial: byte parsing, goroutines, sockets are runtime. Whole chains of real plugins are driven with mutated datagram histories under recover + watchdog.",
         design_ref="DESIGN.md §4 C01", technique="Lean 4 theorems (panic outcomes unreachable, totality) + direct judging of whole real plugin chains through the capture hook + go/ast facts F1, F2, F5",
@@ -71,4 +75,4 @@ META = {
 }
 NOT_YET = {}
 # properties whose check is complete and registered
-ENABLED = {"C20", "C02", "C03", "C04", "C05", "C06", "C07", "C11", "C12", "C13", "C15", "C08", "C09", "C10", "C01", "C16"}
+ENABLED = {"C20", "C02", "C03", "C04", "C05", "C06", "C07", "C11", "C12", "C13", "C15", "C08", "C09", "C10", "C01", "C16", "C18"}
